@@ -13,7 +13,7 @@ from typing import Dict, List, Optional, Set, Tuple
 from .. import flow
 from ..cfg import cfg_of
 from ..model import UNKNOWN, AnchorError, Func, UnknownIdiom, attr_chain, local_names, short, unparse, walk_no_nested
-from .c08 import check_parse_qs_options
+from .c08 import PQS, parse_qs_calls
 from .c09_helpers import (ASGI_REQ, HEADER_INPUTS, WSGI_REQ, CObj, ConcreteEval, CRaise, ReachingDefs, SiteEscape, Unreadable, assignments,
                           branch_facts, classes_of, effective_members, fact_value, factory_bindings, header_getter_kinds, is_public, kind_text,
                           node_defs, node_of, norm_header_key, split_key, table_of, unguarded_keys)
@@ -549,6 +549,38 @@ def _strip_step(p, f: Func):
     return cands[0]
 
 
+def _parse_qs_option_parity(run, p):
+    """Both request constructors hand parse_query_string the request options
+    keep_blank_qs_values / auto_parse_qs_csv of the request's own options object
+    (the obligations of C08 R5, read through a local that IS self.options:
+    `self.options = options` ... `keep_blank=options.keep_blank_qs_values`)."""
+    target = p.func(PQS)
+    tparams = target.params()
+    calls = parse_qs_calls(p)
+    if len(calls) < 2 or {f.cls.qual for f, _c in calls} != {WSGI_REQ, ASGI_REQ}:
+        raise AnchorError('expected parse_query_string calls in both request classes, found %d' % len(calls))
+    want = {'keep_blank': 'self.options.keep_blank_qs_values', 'csv': 'self.options.auto_parse_qs_csv'}
+    rds: Dict[str, ReachingDefs] = {}
+    for f, c in calls:
+        run.use(f)
+        given = dict(zip(tparams, c.args))
+        given.update({k.arg: k.value for k in c.keywords if k.arg})
+        nid = node_of(cfg_of(f, p), c)
+        for kw, expr in sorted(want.items()):
+            if kw not in tparams:
+                raise AnchorError('%s has no parameter %s' % (PQS, kw))
+            got = given.get(kw)
+            text = short(got) if got is not None else None
+            ch = attr_chain(got) if got is not None else None
+            if ch is not None and len(ch) >= 2 and ch[0] != 'self':
+                ch = self_chain_at(p, f, rds.setdefault(f.qual, ReachingDefs(cfg_of(f, p))), ch, nid)
+                if ch[0] == 'self':
+                    text = '.'.join(ch)
+            run.check(text == expr, '%s passes %s=%s to parse_query_string' % (f.qual, kw, expr), f, c,
+                      witness=['%s=%s' % (kw, short(got) if got is not None else '<default False>')],
+                      runtime_witness='the request option %s has no (or the wrong) effect on this stack' % expr.rsplit('.', 1)[-1])
+
+
 def r3_constructor_parity(run):
     p = run.project
     fw, fa = p.func(WSGI_REQ + '.__init__'), p.func(ASGI_REQ + '.__init__')
@@ -584,7 +616,7 @@ def r3_constructor_parity(run):
     run.check(not differ, 'both constructors guard the trailing-slash strip with the same conditions', fa, 'strip-guard: %s vs %s' % (fw.qual, fa.qual),
               where=fa.loc(), witness=['%s: %s' % (k, _guard_text(v).replace(V, '<path>')) for k, v in res.items()],
               runtime_witness='the path "/" (or "//") is routed differently by the two stacks when strip_url_path_trailing_slash is on')
-    check_parse_qs_options(run, p)
+    _parse_qs_option_parity(run, p)
     # content_type from the same header
     keys = {}
     for f, kind in ((fw, 'environ'), (fa, 'asgi-headers')):
@@ -889,6 +921,40 @@ def r6_access_route_tail(run):
 # R7 the three copies of media rendering perform the same stores on the response
 # ---------------------------------------------------------------------------
 
+_RESPONSE_CLASSES = ('falcon.response.Response', 'falcon.asgi.response.Response')
+
+
+def _helper_self_stores(p, f: Func, call, recv: str, depth=0, seen=None) -> Set[str]:
+    """Attributes of `self` stored by the method `<recv>.<m>(...)` (and by the same-object helpers it calls, two levels):
+    `self` of the helper is the object `recv` of the caller.  k1-c12-1: the rendering block of Response.render_body moved
+    verbatim into Response._serialize_media()."""
+    seen = set() if seen is None else seen
+    if recv == 'self':
+        tgt = p.callee(f, call)
+        targets = [tgt] if isinstance(tgt, Func) else []
+    else:
+        targets = []
+        for cq in _RESPONSE_CLASSES:
+            m = p.lookup_method(cq, call.func.attr)
+            if isinstance(m, Func) and m not in targets:
+                targets.append(m)
+    out: Set[str] = set()
+    for h in targets:
+        if h.qual in seen:
+            continue
+        seen.add(h.qual)
+        for x in walk_no_nested(h.node):
+            if isinstance(x, (ast.Assign, ast.AnnAssign, ast.AugAssign)):
+                tg = x.targets if isinstance(x, ast.Assign) else [x.target]
+                for tt in tg:
+                    for y in walk_self(tt):
+                        if isinstance(y, ast.Attribute) and isinstance(y.value, ast.Name) and y.value.id == 'self' and not isinstance(y.ctx, ast.Load):
+                            out.add(y.attr)
+            elif depth < 2 and isinstance(x, ast.Call) and isinstance(x.func, ast.Attribute) and isinstance(x.func.value, ast.Name) and x.func.value.id == 'self':
+                out |= _helper_self_stores(p, h, x, 'self', depth + 1, seen)
+    return out
+
+
 def _render_stores(p, f: Func):
     """(if statement, receiver text, attributes of the response stored where the rendition is found missing) for each
     test of `<resp>._media_rendered` against `_UNSET` in f.  Read: `is` / `is not` / `==` / `!=` in either operand order,
@@ -947,6 +1013,9 @@ def _render_stores(p, f: Func):
         locals_ = set()
         for st in branches[0]:
             for x in walk_self(st):
+                if isinstance(x, ast.Call) and isinstance(x.func, ast.Attribute) and unparse(x.func.value) == recv:
+                    # a helper method of the same response object called from the block: its stores are stores of the block
+                    attrs |= _helper_self_stores(p, f, x, recv)
                 if isinstance(x, (ast.Assign, ast.AnnAssign, ast.AugAssign)):
                     tg = x.targets if isinstance(x, ast.Assign) else [x.target]
                     for tt in tg:
@@ -1153,6 +1222,74 @@ PIPELINE_TABLED = {
 }
 
 
+def _binds_name(x, name: str) -> bool:
+    return isinstance(x, ast.Name) and x.id == name and isinstance(x.ctx, (ast.Store, ast.Del))
+
+
+def self_alias_at(p, f: Func, name: str, nid: int) -> Optional[str]:
+    """`A` when, at CFG node nid of f, the local / parameter `name` is the very
+    object held by self.A: f has exactly one store into self.A, it is the plain
+    `self.A = name`, it dominates nid, and `name` is not bound again (assignment,
+    del, for/with/except target, walrus) at any node reachable from the store.
+    Reading `name.x` there is reading `self.A.x` (k1-c06-2: `self.options =
+    options` followed by `options.strip_url_path_trailing_slash`)."""
+    cfg = cfg_of(f, p)
+    stores: Dict[str, list] = {}
+    for n in cfg.live_nodes():
+        if n.copy or n.kind != 'stmt' or not isinstance(n.ast, (ast.Assign, ast.AnnAssign, ast.AugAssign, ast.Delete)):
+            continue
+        a = n.ast
+        tg = a.targets if isinstance(a, (ast.Assign, ast.Delete)) else [a.target]
+        for t in tg:
+            for x in walk_self(t):
+                if isinstance(x, ast.Attribute) and isinstance(x.value, ast.Name) and x.value.id == 'self' and not isinstance(x.ctx, ast.Load):
+                    stores.setdefault(x.attr, []).append((n, a, t))
+    for attr, sts in sorted(stores.items()):
+        if len(sts) != 1:
+            continue
+        n, a, t = sts[0]
+        if not (isinstance(a, (ast.Assign, ast.AnnAssign)) and isinstance(t, ast.Attribute) and isinstance(getattr(a, 'value', None), ast.Name)
+                and a.value.id == name):
+            continue
+        if nid == n.id or not flow.dominated_by_nodes(cfg, nid, [n.id]):
+            continue
+        after = flow.reachable(cfg, [y for y, _l in cfg.succ[n.id]])
+        rebound = False
+        for m in cfg.live_nodes():
+            if m.id not in after:
+                continue
+            if any(d.name == name for d in node_defs(m)) or any(_binds_name(x, name) for x in m.walk()):
+                rebound = True
+                break
+        if not rebound:
+            return attr
+    return None
+
+
+def self_chain_at(p, f: Func, rd, ch, nid: int):
+    """The attribute chain `ch` (a tuple of names) rewritten to start at `self` when its root is a local that is an
+    attribute of self at node nid: stored into it (`self.A = L`, see self_alias_at) or read from it (`L = self.A...`, the
+    single definition of L reaching nid, with self.A stored at most once in f and before that definition)."""
+    if ch is None or len(ch) < 2 or ch[0] == 'self':
+        return ch
+    al = self_alias_at(p, f, ch[0], nid)
+    if al is not None:
+        return ('self', al) + tuple(ch[1:])
+    ds = rd.at(nid, ch[0])
+    if len(ds) == 1 and ds[0].how == 'assign' and ds[0].value is not None:
+        src = attr_chain(ds[0].value)
+        if src is not None and len(src) >= 2 and src[0] == 'self' and isinstance(ds[0].value, ast.Attribute):
+            cfg = cfg_of(f, p)
+            dn = _stmt_node(cfg, ds[0].stmt)
+            stores = [n for n in cfg.live_nodes() if not n.copy and n.kind == 'stmt' and isinstance(n.ast, (ast.Assign, ast.AnnAssign, ast.AugAssign, ast.Delete))
+                      and any(isinstance(x, ast.Attribute) and not isinstance(x.ctx, ast.Load) and attr_chain(x) == src[:2]
+                              for t in (n.ast.targets if isinstance(n.ast, (ast.Assign, ast.Delete)) else [n.ast.target]) for x in walk_self(t))]
+            if not stores or (len(stores) == 1 and stores[0].id != dn and flow.dominated_by_nodes(cfg, dn, [stores[0].id])
+                              and stores[0].id not in flow.reachable(cfg, [y for y, _l in cfg.succ[dn]])):
+                return tuple(src) + tuple(ch[1:])
+    return ch
+
+
 def _facts_with_ids(cfg, nid):
     """branch_facts, with the id of the test node (names in a test are resolved where the test is evaluated)."""
     out = []
@@ -1260,6 +1397,8 @@ class _Pipeline:
             if is_self_attr(e, self.attr):
                 return V
             ch = attr_chain(e)
+            # a local that IS self.<A> (stored once, never rebound / read once): `options.x` reads `self.options.x`
+            ch = self_chain_at(self.p, self.f, self.rd, ch, nid)
             if ch is not None and ch[0] == 'self':
                 return '.'.join(ch[1:]) if len(ch) == 3 and ch[1] == 'options' else '.'.join(ch)
             raise UnknownIdiom('%s: attribute %s in the %s pipeline' % (self.f.qual, short(e, 60), self.attr))
@@ -1297,6 +1436,51 @@ class _Pipeline:
         if isinstance(e, ast.IfExp):
             return '(%s if %s else %s)' % (N(e.body), N(e.test), N(e.orelse))
         raise UnknownIdiom('%s: expression %s in the %s pipeline' % (self.f.qual, short(e, 60), self.attr))
+
+    def _through_helper(self, e, nid):
+        """`helper(<value>, <other arguments>)` with `helper` a loop-free module-level function: [(guard atoms,
+        transformation, simple)] for every `return` of the helper that does not hand the value back unchanged -- the
+        helper's parameters read as the caller's arguments (k2-c06-2: the trailing-slash strip of both constructors moved
+        into request_helpers._apply_trailing_slash_option(path, self.options.strip_url_path_trailing_slash)).
+        None when `e` is not such a call."""
+        if not (isinstance(e, ast.Call) and not any(isinstance(a, ast.Starred) for a in e.args) and not any(k.arg is None for k in e.keywords)):
+            return None
+        h = self.p.callee(self.f, e)
+        if not isinstance(h, Func) or h.cls is not None or h.parent is not None or h.is_async or h.decorators:
+            return None
+        if any(isinstance(x, (ast.While, ast.For, ast.AsyncFor, ast.Try, ast.With, ast.Yield, ast.YieldFrom, ast.Global, ast.Nonlocal, ast.Lambda))
+               for x in walk_no_nested(h.node)) or h.nested:
+            return None
+        hargs = h.node.args
+        if hargs.vararg or hargs.kwarg or hargs.posonlyargs:
+            return None
+        params = h.params()
+        if len(e.args) > len(params):
+            return None
+        bound: Dict[str, ast.AST] = dict(zip(params, e.args))
+        for k in e.keywords:
+            if k.arg not in params or k.arg in bound:
+                return None
+            bound[k.arg] = k.value
+        if any(pn not in bound for pn in params):
+            return None             # (a default would have to be read in the helper's module: not needed so far)
+        subst = {pn: self.norm(a, nid) for pn, a in bound.items()}
+        if V not in subst.values():
+            return None             # the value is not handed over as it is
+        hp = _HelperPipeline(self, h, subst)
+        out = []
+        rets = [n for n in hp.cfg.live_nodes() if not n.copy and n.kind == 'stmt' and isinstance(n.ast, ast.Return)]
+        if not rets or any(r.ast.value is None for r in rets):
+            raise UnknownIdiom('%s: helper %s of the %s pipeline does not return a value on every path' % (self.f.qual, h.qual, self.attr))
+        if flow.find_path(hp.cfg, [hp.cfg.entry], [hp.cfg.exit], avoid_nodes=[r.id for r in rets], edge_filter=flow.no_exc) is not None:
+            raise UnknownIdiom('%s: helper %s of the %s pipeline can fall off its end' % (self.f.qual, h.qual, self.attr))
+        for r in rets:
+            t = hp.norm(r.ast.value, r.id)
+            if t == V:
+                continue
+            out.append((hp._guard(r.id, r.ast), t, hp._simple(r.ast.value)))
+        self.raw_used |= hp.raw_used
+        return out
 
     def _simple(self, e) -> bool:
         """Canonical transformation: the value, constants, `or`, str methods with
@@ -1386,6 +1570,13 @@ class _Pipeline:
                     raise UnknownIdiom('%s: %s in the %s pipeline' % (self.f.qual, short(a, 60), self.attr))
                 t = '(%s %s %s)' % (V, _BINOPS[type(a.op)], self.norm(a.value, n.id))
             else:
+                looked = self._through_helper(a.value, n.id)
+                if looked is not None:
+                    # a module-level helper handed the value: its returns are the rebindings (guards conjoined with ours)
+                    g0 = self._guard(n.id, a)
+                    for g, t, simple in looked:
+                        out.append((frozenset(g0 | g), t, a, simple))
+                    continue
                 t = self.norm(a.value, n.id)
             if t == V:
                 continue  # a plain copy (raw read, rename, the store itself)
@@ -1395,6 +1586,42 @@ class _Pipeline:
                 raise UnknownIdiom('%s: %r (part of the %s pipeline) is bound by a walrus' % (self.f.qual, x.target.id, self.attr))
         out.sort(key=lambda s: (s[2].lineno, s[2].col_offset))
         return out
+
+
+class _HelperPipeline(_Pipeline):
+    """Normal forms inside a module-level helper that is handed the pipeline value: a parameter reads as the caller's
+    argument (the value itself, or the normal form of whatever else was passed)."""
+
+    def __init__(self, outer: _Pipeline, h: Func, subst: Dict[str, str]):
+        self.p, self.f, self.attr = outer.p, h, outer.attr
+        self.cfg = cfg_of(h, outer.p)
+        self.rd = ReachingDefs(self.cfg)
+        self.parent = None
+        self.raw_used = set()
+        self.subst = subst
+        self.vars = {pn for pn, t in subst.items() if t == V}
+        for n in self.cfg.live_nodes():
+            for d in node_defs(n):
+                if d.name in subst:
+                    raise UnknownIdiom('%s: helper of the %s pipeline rebinds its parameter %r' % (h.qual, self.attr, d.name))
+
+    def _is_store_target(self, t) -> bool:
+        return False
+
+    def _through_helper(self, e, nid):
+        return None
+
+    def norm(self, e, nid, depth=0) -> str:
+        if isinstance(e, ast.Name) and e.id in self.subst:
+            return self.subst[e.id]
+        if isinstance(e, ast.Attribute) and is_self_attr(e, self.attr):
+            raise UnknownIdiom('%s: `self` inside a module-level helper' % self.f.qual)
+        return _Pipeline.norm(self, e, nid, depth)
+
+    def _simple(self, e) -> bool:
+        if isinstance(e, ast.Name) and e.id in self.subst and e.id not in self.vars:
+            return False
+        return _Pipeline._simple(self, e)
 
 
 def _guard_text(g) -> str:
@@ -2474,7 +2701,12 @@ def r19_driver_conversions(run):
 _R20_HOST = 'host.example'
 _R20_SCHEMES = ('http', 'https')
 _R20_DEFAULT_PORT = {'http': 80, 'https': 443}       # RFC 9110, 4.2.1 / 4.2.2: the default port of each scheme
-_R20_PORTS = (None, 80, 443, 8080)                   # not given / http's default / https's default / neither
+# not given / http's default / https's default / neither -- each as an int and as the numeric string the drivers document
+# ("A string may also be passed, as long as it can be parsed as an int"): both spellings are the same request, so a driver
+# that compares the raw argument with the int constants 80 / 443 keeps `:80` for port='80' (s10-c06-3)
+# ('080' / '0443': numeric strings in a non-canonical spelling -- a driver that compares STRINGS must compare the
+#  normalised str(int(port)), as create_environ does)
+_R20_PORTS = (None, 80, 443, 8080, '80', '443', '8080', '080', '0443')
 
 
 def _host_sinks(p, f: Func):
@@ -2635,8 +2867,9 @@ def r20_host_port_elision(run):
     OF THE REQUEST'S SCHEME (80 for http, 443 for https; also when no port is given), `host:port` otherwise (RFC 9110,
     7.2).  Decided by evaluating the statements that compute the header value -- the backward slice of the store of
     HTTP_HOST / b'host' in create_environ / create_scope (through the one helper it calls) -- over the abstract domain
-    scheme in {http, https} x port in {not given, 80, 443, other}; both drivers must produce the required table, hence
-    agree with each other.
+    scheme in {http, https} x port in {not given, 80, 443, other} x type of the port argument in {int, numeric str} (the
+    drivers document both spellings); both drivers must produce the required table, hence agree with each other: whatever
+    is compared with the default-port constants has been normalised to the constants' type first.
     Witness: simulate_get(protocol='https', port=80): a client sends `Host: example.org:80`; a driver that drops the port
     makes req.port / netloc / uri / forwarded_host report the scheme default, and the WSGI and ASGI twins see different requests."""
     p = run.project
@@ -2650,17 +2883,17 @@ def r20_host_port_elision(run):
                 run.use(holder)
                 if isinstance(got, bytes):
                     got = got.decode('latin-1')
-                eff = _R20_DEFAULT_PORT[scheme] if port is None else port
+                eff = _R20_DEFAULT_PORT[scheme] if port is None else int(port)
                 kept = '%s:%d' % (_R20_HOST, eff)
                 if got == _R20_HOST:
                     have = 'elided'
-                elif got == kept:
-                    have = 'kept'
+                elif got == kept or (port is not None and got == '%s:%s' % (_R20_HOST, port)):
+                    have = 'kept'               # (possibly in the caller's spelling of the number)
                 else:
                     raise UnknownIdiom('%s: the Host header for scheme=%r port=%r evaluates to %r (neither the host nor host:port)'
                                        % (holder.qual, scheme, port, got))
                 want = 'elided' if eff == _R20_DEFAULT_PORT[scheme] else 'kept'
-                cell = 'scheme=%s, port=%s' % (scheme, 'not given' if port is None else port)
+                cell = 'scheme=%s, port=%s' % (scheme, 'not given' if port is None else repr(port))
                 run.check(have == want,
                           '%s: the simulated Host header has the port %s for %s (the port is dropped exactly when it is the default port of the scheme)'
                           % (driver.name, want, cell), holder, 'Host header [%s]: port %s' % (cell, have), where=holder.loc(stmt),
@@ -2853,6 +3086,262 @@ def r21_lifespan_order(run):
               runtime_witness='async with ASGIConductor(app) as c: await c.simulate_get(...) reaches the responder before process_startup has finished')
 
 
+# ---------------------------------------------------------------------------
+# R22 file-like resp.stream: both stacks read block after block until an EMPTY read
+# ---------------------------------------------------------------------------
+
+BLOCK_SIZE_ATTR = '_STREAM_BLOCK_SIZE'
+WSGI_STREAM_ITER = 'falcon.app_helpers.CloseableStreamIterator'
+ASGI_APP_MODULE = 'falcon.asgi.app'
+WSGI_APP_MODULE = 'falcon.app'
+
+
+class _NotAboutData(Exception):
+    """the expression is not a function of the data returned by the read"""
+
+
+class _CellInfeasible(Exception):
+    """evaluating the expression raises for this cell (len(None)): the path is not taken"""
+
+
+_DATA = object()
+
+
+def _read_cell_eval(p, f: Func, e, dname: str, size_texts: Set[str], n: int, cell):
+    """Value of `e` when the latest `read(n)` returned `cell`: None, or bytes of length 0 / 1 / n-1 / n
+    (representatives of: end of stream, short read, full block)."""
+    E = lambda x: _read_cell_eval(p, f, x, dname, size_texts, n, cell)  # noqa: E731
+
+    def truth(v):
+        if v is _DATA:
+            return cell is not None and cell > 0
+        return bool(v)
+
+    if isinstance(e, ast.Constant):
+        return e.value
+    if isinstance(e, ast.Name) and e.id == dname:
+        return _DATA
+    if isinstance(e, ast.NamedExpr) and e.target.id == dname:
+        return _DATA
+    if isinstance(e, ast.Await):
+        return E(e.value)
+    if unparse(e) in size_texts:
+        return n
+    if isinstance(e, ast.Call) and isinstance(e.func, ast.Name) and e.func.id == 'len' and len(e.args) == 1 and not e.keywords \
+            and e.func.id not in local_names(f):
+        v = E(e.args[0])
+        if v is _DATA:
+            if cell is None:
+                raise _CellInfeasible()
+            return cell
+        if isinstance(v, (bytes, str)):
+            return len(v)
+        raise _NotAboutData()
+    if isinstance(e, ast.UnaryOp) and isinstance(e.op, ast.Not):
+        return not truth(E(e.operand))
+    if isinstance(e, ast.BoolOp):
+        # Python's value semantics: the first operand that decides, else the last (`data or b''` is the data or b'')
+        v = None
+        for x in e.values:
+            v = E(x)
+            if truth(v) != isinstance(e.op, ast.And):
+                return v
+        return v
+    if isinstance(e, ast.Compare):
+        left = E(e.left)
+        for op, c in zip(e.ops, e.comparators):
+            right = E(c)
+            if left is _DATA or right is _DATA:
+                other = right if left is _DATA else left
+                if other is _DATA:
+                    raise _NotAboutData()
+                if other is None and isinstance(op, (ast.Is, ast.IsNot, ast.Eq, ast.NotEq)):
+                    r = cell is None
+                elif isinstance(other, (bytes, str)) and len(other) == 0 and isinstance(op, (ast.Eq, ast.NotEq)):
+                    r = cell == 0
+                else:
+                    raise _NotAboutData()
+                if isinstance(op, (ast.IsNot, ast.NotEq)):
+                    r = not r
+            elif isinstance(left, int) and isinstance(right, int) and not isinstance(left, bool) and not isinstance(right, bool) \
+                    and type(op) in _CMPOPS and not isinstance(op, (ast.In, ast.NotIn, ast.Is, ast.IsNot)):
+                r = {'==': left == right, '!=': left != right, '<': left < right, '<=': left <= right, '>': left > right,
+                     '>=': left >= right}[_CMPOPS[type(op)]]
+            else:
+                raise _NotAboutData()
+            if not r:
+                return False
+            left = right
+        return True
+    if isinstance(e, (ast.Name, ast.Attribute)):
+        v = p.fold(f.module, e, f.cls, f)
+        if isinstance(v, int) and not isinstance(v, bool):
+            return v
+    raise _NotAboutData()
+
+
+def _stream_read_sites(p, f: Func):
+    """(statement-level binding name, read call, enclosing loop or None) of every `<x>.read(<size>)` in f whose size
+    derives from the block size (mentions _STREAM_BLOCK_SIZE, or - in the WSGI iterator - the stored constructor argument)."""
+    parent = enclosing_map(f.node)
+    out = []
+    for c in walk_no_nested(f.node):
+        if not (isinstance(c, ast.Call) and isinstance(c.func, ast.Attribute) and c.func.attr == 'read' and len(c.args) == 1 and not c.keywords):
+            continue
+        cur, holder = parent.get(id(c)), c
+        while isinstance(cur, ast.Await):
+            cur, holder = parent.get(id(cur)), cur
+        dname = None
+        if isinstance(cur, ast.Assign) and cur.value is holder and len(cur.targets) == 1 and isinstance(cur.targets[0], ast.Name):
+            dname = cur.targets[0].id
+        elif isinstance(cur, ast.AnnAssign) and cur.value is holder and isinstance(cur.target, ast.Name):
+            dname = cur.target.id
+        elif isinstance(cur, ast.NamedExpr) and cur.value is holder:
+            dname = cur.target.id
+        loop = cur
+        while loop is not None and loop is not f.node and not isinstance(loop, (ast.While, ast.For, ast.AsyncFor)):
+            loop = parent.get(id(loop))
+        out.append((dname, c, loop if isinstance(loop, (ast.While, ast.For, ast.AsyncFor)) else None))
+    return out
+
+
+def _read_until_empty(run, p, f: Func, dname, call, loop, side: str):
+    """Judge one read site: no way out of the read loop is open after a NON-EMPTY read."""
+    if dname is None:
+        raise UnknownIdiom('%s: the result of `%s` is not bound to a local' % (f.qual, short(call, 60)))
+    cfg = cfg_of(f, p)
+    run.use_cfg(cfg)
+    scope = loop if loop is not None else f.node
+    inside = {id(x) for x in ast.walk(scope)}
+    binds = [x for x in walk_no_nested(scope) if isinstance(x, ast.Name) and x.id == dname and isinstance(x.ctx, (ast.Store, ast.Del))]
+    if len(binds) != 1:
+        raise UnknownIdiom('%s: `%s` (the data read from the stream) is bound %d times in the read loop' % (f.qual, dname, len(binds)))
+    size_texts = {unparse(call.args[0])}
+    nv = p.fold(f.module, call.args[0], f.cls, f)
+    n = nv if isinstance(nv, int) and not isinstance(nv, bool) and nv >= 4 else 8192
+    # ways out of the loop (WSGI iterator: ways to end the iteration)
+    exits = []
+    parent = enclosing_map(f.node)
+
+    def own_loop(x):
+        cur = parent.get(id(x))
+        while cur is not None and not isinstance(cur, (ast.While, ast.For, ast.AsyncFor)):
+            cur = parent.get(id(cur))
+        return cur
+
+    if loop is not None:
+        for x in walk_no_nested(loop):
+            if (isinstance(x, ast.Break) and own_loop(x) is loop) or isinstance(x, ast.Return):
+                exits.append((x, None))
+        if isinstance(loop, ast.While):
+            if not (isinstance(loop.test, ast.Constant) and loop.test.value):
+                exits.append((loop, [(loop.test, False)]))
+        else:
+            raise UnknownIdiom('%s: `%s` inside a for loop' % (f.qual, short(call, 60)))
+    else:
+        if f.name != '__next__':
+            raise UnknownIdiom('%s: `%s` is neither inside a loop nor in an iterator __next__' % (f.qual, short(call, 60)))
+        for x in walk_no_nested(f.node):
+            if isinstance(x, ast.Raise) and x.exc is not None and short(x.exc.func if isinstance(x.exc, ast.Call) else x.exc) in ('StopIteration', 'StopAsyncIteration'):
+                exits.append((x, None))
+    if not exits:
+        raise UnknownIdiom('%s: no way out of the loop around `%s` was found' % (f.qual, short(call, 60)))
+    what = ('%s: the loop over `%s` ends only on an EMPTY read (a short read is not the end of a pipe / socket / decompressor stream)'
+            % (side, short(call, 60)))
+    for x, facts in exits:
+        if facts is None:
+            nids = [i for i in cfg.nodes_for(x) if not cfg.node(i).copy] or cfg.nodes_for(x)
+            if not nids:
+                continue        # dead code
+            facts = [(t, tr) for t, tr in branch_facts(cfg, nids[0]) if id(t) in inside]
+        if not facts:
+            raise UnknownIdiom('%s: `%s` leaves the read loop unconditionally' % (f.qual, short(x, 40)))
+        guards = [(t, tr) for t, tr in facts if not isinstance(t, ast.Constant)]
+        cons = ('while ' + unparse(x.test)) if isinstance(x, ast.While) else '%s [%s]' % (
+            short(x, 40), ' and '.join(('' if tr else 'not ') + unparse(t) for t, tr in guards))
+        open_for, unread = [], None
+        for cell in (1, n - 1, n):
+            refuted = False
+            unknown = None
+            for t, tr in facts:
+                try:
+                    val = _read_cell_eval(p, f, t, dname, size_texts, n, cell)
+                    if (cell > 0 if val is _DATA else bool(val)) != tr:
+                        refuted = True
+                        break
+                except _CellInfeasible:
+                    refuted = True
+                    break
+                except _NotAboutData:
+                    unknown = t
+            if refuted:
+                continue
+            if unknown is not None:
+                unread = unknown
+            else:
+                open_for.append(cell)
+        if open_for:
+            names = {1: 'a 1-byte read', n - 1: 'a read one byte short of the block size', n: 'a full block'}
+            run.fail(what + ': `%s` is reached after %s' % (short(x, 40) if not isinstance(x, ast.While) else cons,
+                                                             ', '.join(names[c] for c in open_for)),
+                     f, cons, where=f.loc(x),
+                     witness=['exit guarded by: ' + ' and '.join(('' if tr else 'not ') + '(%s)' % unparse(t) for t, tr in facts),
+                              'block size %s = %d; cells of len(%s): 0, 1, %d, %d' % (unparse(call.args[0]), n, dname, n - 1, n)],
+                     runtime_witness='resp.stream reads from a pipe: pieces of 60, 3500, 8192 ... bytes; this stack stops after the first '
+                                     'short piece and the rest of the body is dropped, the sibling stack delivers all of it')
+        elif unread is not None:
+            raise UnknownIdiom('%s: the read loop is left under `%s`, which the rule cannot read as a condition on the data read' % (f.qual, short(unread, 60)))
+        else:
+            run.ok(what, f.loc(x), cons)
+
+
+def r22_stream_read_until_empty(run):
+    """resp.stream that is file-like is delivered by both stacks block after block: ASGI `App.__call__` awaits
+    `stream.read(_STREAM_BLOCK_SIZE)` in a loop, WSGI wraps the stream in CloseableStreamIterator whose __next__ reads
+    a block.  `read(n)` promises AT MOST n bytes; only an empty result is the end of the stream.  Clause (same on both
+    stacks): every way out of the read loop (break / return / loop test; `raise StopIteration` in the iterator) is closed
+    for a non-empty read.  Decided by evaluating the branch facts that dominate each exit over the cells
+    len(data) in {1, n-1, n} (abstract evaluation; a guard that is not a function of the data is an unknown idiom).
+    W: a pipe-backed resp.stream yields 60 bytes, then 3500, ...: ASGI stops after the 60 bytes, WSGI sends the whole body."""
+    p = run.project
+    # ASGI: read sites in falcon.asgi.app whose size is the block size
+    asgi_sites = []
+    for f in p.funcs.values():
+        if f.module.name != ASGI_APP_MODULE:
+            continue
+        for dname, call, loop in _stream_read_sites(p, f):
+            size = call.args[0]
+            if isinstance(size, ast.Name):
+                # the block size held in a local bound once (`block_size = self._STREAM_BLOCK_SIZE`)
+                vals = assignments(f).get(size.id, [])
+                if len(vals) == 1 and vals[0] is not None and size.id not in f.params():
+                    size = vals[0]
+            if BLOCK_SIZE_ATTR in unparse(size):
+                asgi_sites.append((f, dname, call, loop))
+    if not asgi_sites:
+        raise AnchorError('%s: no `<stream>.read(...%s...)` call found' % (ASGI_APP_MODULE, BLOCK_SIZE_ATTR))
+    for f, dname, call, loop in asgi_sites:
+        _read_until_empty(run, p, f, dname, call, loop, 'ASGI')
+    # WSGI: the iterator the app wraps the stream in, built with the block size
+    it = p.cls(WSGI_STREAM_ITER)
+    built = False
+    for f in p.funcs.values():
+        if f.module.name != WSGI_APP_MODULE:
+            continue
+        for c in walk_no_nested(f.node):
+            if isinstance(c, ast.Call) and p.callee(f, c) is it:        # (the block size may travel through a local)
+                built = True
+                run.use(f)
+    if not built:
+        raise AnchorError('%s: no construction of %s found' % (WSGI_APP_MODULE, WSGI_STREAM_ITER))
+    nxt = p.func(WSGI_STREAM_ITER + '.__next__')
+    sites = [(d, c, l) for d, c, l in _stream_read_sites(p, nxt) if attr_chain(c.func.value) is not None and attr_chain(c.func.value)[0] == 'self']
+    if not sites:
+        raise AnchorError('%s: no `self.<stream>.read(<block size>)` call' % nxt.qual)
+    for dname, call, loop in sites:
+        _read_until_empty(run, p, nxt, dname, call, loop, 'WSGI')
+
+
 def check(run):
     run.assume('whole-behaviour equality is not decided; the parity obligations between the hand-duplicated siblings are')
     run.assume('R4 (dispatch parity) = C03 R1 + C04 R3 + C05 R3/R4: decided by those checks, not re-evaluated here')
@@ -2887,5 +3376,11 @@ def check(run):
     run.rule('R17', r17_ctor_attribute_parity, 'the two request constructors bind the same public per-request attributes; declared attributes are bound', floor=15)
     run.rule('R18', r18_driver_defaults, 'WSGI / ASGI test drivers: shared parameters have the same defaults', floor=20)
     run.rule('R19', r19_driver_conversions, 'create_environ / create_scope: shared parameters go through the same conversion / validation functions', floor=8)
-    run.rule('R20', r20_host_port_elision, 'create_environ / create_scope: the Host header carries the port exactly when it is not the default port of the scheme (scheme x port cells)', floor=16)
+    run.rule('R20', r20_host_port_elision, 'create_environ / create_scope: the Host header carries the port exactly when it is not the default port of the scheme (scheme x port cells, port given as int or numeric str)', floor=36)
     run.rule('R21', r21_lifespan_order, 'one-shot ASGI driver: the HTTP scope is served after the await of lifespan startup and before shutdown is released (dominance)', floor=4)
+    run.rule('R22', r22_stream_read_until_empty, 'file-like resp.stream: both stacks read block after block and stop only on an empty read', floor=2)
+    from . import c12 as _c12
+    # (the outcome of asking the request for its media - value or error, first and later calls - is part of what the
+    #  application sees: s10-c06-2, ASGI get_media stopped remembering non-HTTP errors)
+    run.rule('R23', _c12._safe(_c12.r1_parse_once), 'media access: WSGI and ASGI get_media are event-language-equal (parse once, cache value and error, exhaust, default) '
+             '(shared with C12 R1)', floor=50)
